@@ -94,6 +94,9 @@ def pre_state(P, A):
         if P.get('prefail'):
             from . import history
             history.failed_attempts(ro, level='story')
+        if P.get('presend'):
+            from . import history
+            history.resend_stories(ro)
         return ro, (lambda: B.rc_of(ro)), ids, {'addr': None}
     # item level: two stories; the addressed one holds the N symbolic item IDs, the other one
     # holds items with the *same* IDs in reverse order (item IDs may repeat across stories)
@@ -110,6 +113,9 @@ def pre_state(P, A):
     if P.get('prefail'):
         from . import history
         history.failed_attempts(ro, addr=addr_id, level='item')
+    if P.get('presend'):
+        from . import history
+        history.resend_stories(ro)
 
     def cont():
         for s in B.rc_of(ro).findall('story'):
